@@ -11,13 +11,18 @@ separate GLM implementations).
 """
 from __future__ import annotations
 
+import ast
 import ctypes as C
+import os
+import re
 import warnings
 
 import numpy as np
 
-from harness.core import PropertyCheck
+from harness.core import PropertyCheck, TieBroken
 from harness.util import Snapshot, errname, fr, frs, parse_rats, pmat
+from harness.props import c05_results as RS
+from harness.props import c05_more as MR
 
 LAMBDA = 1e-7          # 1 / FFF_GLM_KALMAN_INIT_VAR
 KEY_KALMAN_S2 = "kalman-s2-uncorrected"
@@ -271,25 +276,84 @@ def _wscale(w, m):
     return float(np.max(np.sum(np.abs(m.cholsigmainv), axis=1)))
 
 
+def RS_drop_last(op, p):
+    """the operation restricted to the first p-1 parameters (None if it needs the last one)"""
+    op = dict(op)
+    last = (p - 1, -1)
+
+    def okc(c):
+        return c not in last and c >= -(p - 1)
+
+    kind = op["op"]
+    if kind == "t":
+        col = op["col"]
+        if col is None:
+            return op
+        if isinstance(col, int):
+            return op if okc(col) else None
+        return op if all(okc(c) for c in col) else None
+    if kind == "vcov":
+        how = op["how"]
+        if how == "col":
+            return op if okc(op["col"]) else None
+        if how == "cols":
+            return op if all(okc(c) for c in op["cols"]) else None
+        if how == "mat":
+            op["M"] = [r[:-1] for r in op["M"]]
+            if op.get("O") is not None:
+                op["O"] = [r[:-1] for r in op["O"]]
+        return op
+    if kind == "tcon":
+        op["c"] = op["c"][:-1]
+        return op if any(op["c"]) else None
+    if kind == "fcon":
+        M = [r[:-1] for r in op["M"]]
+        if _rank(M) < len(M):
+            return None
+        op["M"] = M
+        return op
+    if kind == "ci":
+        if op["cols"] is None:
+            return op
+        return op if all(okc(c) for c in op["cols"]) else None
+    if kind == "score":
+        op["delta"] = op["delta"][:-1]
+    return op
+
+
 class C05(PropertyCheck):
     id = "C05"
     title = "Linear-model fits are least-squares optimal and implementation-independent"
-    lean_modules = ["NipyVerif.Props.C05"]
+    lean_modules = ["NipyVerif.Props.C05", "NipyVerif.Props.C05B", "NipyVerif.Props.C05C", "NipyVerif.Props.C05T"]
     driver = "Drivers/C05.lean"
-    rule = ("cases are (design, data block, covariance structure / engine, contrast, reparametrisation, "
-            "voxel selection) tuples from a seeded PRNG: dyadic designs of full column rank "
-            "(integer, with intercept, dyadic, nearly collinear, polynomial drift), n 3..40 quick / ..200 "
-            "thorough, p 1..n-1, 1..6 voxels; non-trivial = p >= 2 or at least 2 voxels or a non-identity "
-            "covariance structure; distinct by full JSON of the case")
+    rule = ("cases are tuples from a seeded PRNG, of ten kinds: models (design, data block, covariance structure, "
+            "contrast, reparametrisation, voxel selection); engines (the separate GLM implementations on one problem); "
+            "glmar1 / fmri (fMRI GLM with AR(1) binning, steps, contrasts, FMRILinearModel on in-memory images); "
+            "results (a *history* of operations on one results object - t / vcov / Tcontrast / Fcontrast / conf_int / "
+            "score / summary statistics with every kind of column, matrix, store, invcov and dispersion argument - on "
+            "blocks of 1..7 responses, on purpose often as many responses as parameters, 1-D data, C and Fortran "
+            "layout); ar (whitening orders 1..3 inside and outside the stationarity region, yule_walker, "
+            "ar_bias_corrector / ar_bias_correct / AREstimator, iterative_fit followed by fit on the same object); "
+            "labs3 (both labs engines along every axis of a 3-D block, three memory layouts); matrices (pos_recipr / "
+            "recipr0 incl. zeros, signs, extremes, integer input; matrix_rank / full_rank on exact rank-deficient "
+            "matrices); refuse (malformed calls, abstract base classes).  Dyadic designs of full column rank (integer, "
+            "with intercept, dyadic, nearly collinear, polynomial drift), n 3..40 quick / ..200 thorough, p 1..n-1; "
+            "non-trivial = p >= 2 or at least 2 voxels or a non-identity covariance structure or any results / ar / "
+            "labs3 / fmri / matrices case; distinct by full JSON of the case")
     assumptions = [
-        "numpy.linalg.pinv of a matrix of full column rank is (X'X)^-1 X' (the model uses a certified "
-        "exact inverse; checked to a condition-number-scaled tolerance per case)",
-        "matrix_rank of a design whose Gram matrix has a certified inverse is its column count",
-        "square roots are parameters: WLS works with c = sqrt(weights) as computed by the implementation, "
-        "GLS with the implementation's cholsigmainv (oracle checks W'W = sigma^-1 numerically), contrast "
-        "sd/t are compared through variances",
+        "numpy.linalg.pinv returns (a rounding of) the Moore-Penrose inverse: the model's (X'X)^-1 X' with a certified "
+        "exact inverse *is* that inverse (theorems pinv_is_moore_penrose, pinv_unique); checked to a "
+        "condition-number-scaled tolerance per case",
+        "matrix_rank (SVD with the MATLAB tolerance) equals the exact rank on the generated exact matrices; the model's "
+        "rank carries a certificate and is proved equal to Mathlib's Matrix.rank (rankCert_sound); a successful fit "
+        "implies full column rank (fit_implies_full_rank)",
+        "square roots, the Student quantile (scipy t.ppf) and log are parameters of the model: the model returns "
+        "variances / centres and the harness applies sqrt, the quantile and log to them; WLS works with "
+        "c = sqrt(weights) as computed by the implementation, GLS with the implementation's cholsigmainv (oracle "
+        "checks W'W = sigma^-1 numerically)",
         "IEEE rounding: implementation floats are compared with the exact rational answer to "
-        "max(1e-9, 1e-14*cond^2) relative to the size of the block; the C Kalman filter (prior variance 1e7, "
+        "max(1e-9, 1e-14*cond^2) relative to the size of the block (ratios t / F / R2 / logL 1e3 times that, and not "
+        "at all on numerically perfect fits); the C Kalman filter (prior variance 1e7, "
         "hence ~7 digits of cancellation) to 1e-5*max(1,cond^2/1e4) + 1e-8*smax(X)^2",
         "Kalman engine: the model is the recursion of fff_glm_KF_iterate in exact arithmetic; theorem "
         "kalman_is_ridge shows it ends at the batch solution of (X'X + 1e-7 I) b = X'y, so the oracle allows "
@@ -298,23 +362,163 @@ class C05(PropertyCheck):
         "% in s2 - inherent to the diffuse prior 1e7, not flagged); BLAS dsymv reads one triangle of the "
         "covariance, the model the full matrix, symmetric by kalman_cov_symmetric",
         "the refined Kalman filter (labs model='ar1', fff_glm_RKF_*) is an approximate pseudo-likelihood "
-        "scheme with no exact counterpart: only its refusal guards, shapes, degrees of freedom and "
+        "scheme with no exact counterpart: only its refusal guards, shapes (every axis), degrees of freedom and "
         "voxelwise behaviour are checked by the oracle (modelled-not-verified)",
         "AR(1) bin labels of GeneralLinearModel: voxels whose exact ar1*steps lies within 1e-7 of an integer "
         "are not compared (float truncation may legally pick either bin)",
+        "yule_walker / ar_bias_correct / iterative_fit: scipy.linalg solve / inv / toeplitz are modelled by a certified "
+        "exact inverse; cases whose Toeplitz matrix has condition number above 1e7, a zero denominator or diverging "
+        "iterates are generated but not compared (tagged)",
+        "negative axis values of labs.glm.glm are outside the documented range (the ols engine raises, the compiled "
+        "kalman wrapper indexes a list with them): not generated; N-d blocks are modelled for N = 2, 3",
+        "rank-deficient designs are outside the property's quantifier: the model refuses them (rank_deficient_refused), "
+        "the implementation goes on with pinv; the oracle only checks what stays meaningful there (df_model = rank, "
+        "fitted values = those of full_rank(design), residuals orthogonal to the design) and records that "
+        "dispersion uses n - p, not n - rank",
     ]
-    level_text = ("proof: 25 Lean theorems over all inputs of an exact rational model of OLS/WLS/AR(p)/GLS fits, "
-                  "contrasts, labs ols, the fMRI GLM (ols, per-bin AR(1) refit) and the C Kalman recursion; "
-                  "tied to the code by differential correspondence + property oracle")
-    level_note = ("proved: normal equations / orthogonality, RSS minimality, SSE = min RSS, cov = Gram inverse, "
-                  "reparametrisation invariance (fitted values, residuals, dispersion, dof, contrast effect and "
-                  "covariance), voxel order/grouping, scale equivariance, the four reductions, agreement of the three "
-                  "Python-level implementations, Kalman recursion = regularised batch least squares (ridge 1e-7). "
-                  "Partial: the scatter of per-bin results back to voxels (get_beta) is proved only up to "
-                  "group membership (glm_ar1_group_fit, group_label); pinv = (X'X)^-1 X' and matrix_rank are "
-                  "hypotheses; the refined Kalman filter (labs model='ar1') is oracle-only")
+    level_text = ("proof: 77 Lean theorems over all inputs of an exact rational model of OLS/WLS/AR(p)/GLS fits, the whole "
+                  "results API on multi-response fits (t, vcov, Tcontrast, Fcontrast, conf_int, score, sums of squares, "
+                  "logL), pos_recipr/recipr0, certified rank, AR(p) filter, yule_walker, ar_bias_correct, labs ols "
+                  "(every axis), the fMRI GLM (ols, per-bin AR(1) refit and its scatter, contrasts) and the C Kalman "
+                  "recursion; tables/constants/formula shapes re-read from the source by a translator; tied to the code "
+                  "by differential correspondence + property oracle")
+    level_note = ("proved: normal equations / orthogonality / score = 0, RSS minimality, SSE = min RSS, cov = Gram inverse, "
+                  "calc_beta = Moore-Penrose inverse (unique), full rank <=> model accepts, reparametrisation invariance, "
+                  "voxel order/grouping for every observable of the results API (results_voxelwise), t(column=j) = "
+                  "Tcontrast(e_j).t, vcov(matrix) spec and positive semi-definiteness, conf_int centre / half width, "
+                  "SSE <= SST and 0 <= R2 <= 1 with an intercept, scale equivariance incl. R2 / F_overall, the four "
+                  "reductions plus AR(p) = GLS with the banded whitening matrix, AR filter form / linearity / "
+                  "injectivity for every order, Yule-Walker equations and shift invariance, bias-corrected AR estimates "
+                  "voxelwise and scale invariant, agreement of the Python-level implementations on every shared "
+                  "observable, every axis of the labs engines fibre-wise, the scatter of per-bin AR(1) results "
+                  "(glm_ar1_scatter, formerly partial), Kalman recursion = regularised batch least squares (ridge 1e-7). "
+                  "Hypotheses / oracle-only: numpy pinv returns the Moore-Penrose inverse, matrix_rank agrees with the "
+                  "exact rank on exact inputs, sqrt / Student quantile / log (parameters), the refined Kalman filter "
+                  "(labs model='ar1'), FMRILinearModel's image handling (oracle against GeneralLinearModel), labs "
+                  "save/load, rank-deficient designs (outside the domain)")
     finding_keys = {KEY_KALMAN_S2: "labs.glm kalman engine returns s2 = ssd/n while the ols engine "
                                    "returns ssd/(n-p)"}
+
+    # ------------------------------------------------------------------
+    # tie (a): tables, constants and formula shapes of the current source
+    # ------------------------------------------------------------------
+    #: formula shapes the model encodes (text of the right-hand side after ast.unparse)
+    FORMULAS = {
+        ("nipy/algorithms/statistics/models/regression.py", "OLSModel.fit", "dispersion"):
+            "np.sum(wresid ** 2, 0) / (self.wdesign.shape[0] - self.wdesign.shape[1])",
+        ("nipy/algorithms/statistics/models/regression.py", "OLSModel.fit", "beta"): "np.dot(self.calc_beta, wY)",
+        ("nipy/algorithms/statistics/models/regression.py", "OLSModel.fit", "wresid"): "wY - np.dot(self.wdesign, beta)",
+        ("nipy/algorithms/statistics/models/regression.py", "OLSModel.initialize", "self.calc_beta"):
+            "npl.pinv(self.wdesign)",
+        ("nipy/algorithms/statistics/models/regression.py", "OLSModel.initialize", "self.normalized_cov_beta"):
+            "np.dot(self.calc_beta, np.transpose(self.calc_beta))",
+        ("nipy/algorithms/statistics/models/regression.py", "OLSModel.initialize", "self.df_model"):
+            "matrix_rank(self.design)",
+        ("nipy/algorithms/statistics/models/regression.py", "RegressionResults.MSE", "return"): "self.SSE / self.df_resid",
+        ("nipy/algorithms/statistics/models/regression.py", "RegressionResults.MSR", "return"):
+            "self.SSR / (self.df_model - 1)",
+        ("nipy/algorithms/statistics/models/regression.py", "RegressionResults.MST", "return"):
+            "self.SST / (self.df_total - 1)",
+        ("nipy/algorithms/statistics/models/regression.py", "RegressionResults.SSE", "return"): "(self.wresid ** 2).sum(0)",
+        ("nipy/algorithms/statistics/models/regression.py", "RegressionResults.SST", "return"):
+            "((self.wY - self.wY.mean(0)) ** 2).sum(0)",
+        ("nipy/algorithms/statistics/models/regression.py", "RegressionResults.SSR", "return"): "self.SST - self.SSE",
+        ("nipy/algorithms/statistics/models/regression.py", "ARModel.whiten", "_X[i + 1:]"):
+            "_X[i + 1:] - self.rho[i] * X[0:-(i + 1)]",
+        ("nipy/algorithms/statistics/models/model.py", "LikelihoodModelResults.__init__", "self.df_resid"):
+            "self.df_total - self.df_model",
+        ("nipy/labs/glm/glm.py", "ols", "s2"): "(res ** 2).sum(axis) / float(n - X.shape[1])",
+        ("nipy/labs/glm/glm.py", "ols", "dof"): "float(X.shape[0] - X.shape[1])",
+        ("nipy/labs/glm/glm.py", "ols", "nvbeta"): "np.inner(pX, pX)",
+    }
+
+    def translators(self):
+        from harness.overlay import REPO
+
+        def parse(rel):
+            try:
+                return ast.parse(open(os.path.join(REPO, rel)).read())
+            except Exception as e:
+                raise TieBroken(f"{rel} does not parse: {e}")
+
+        def func(tree, dotted):
+            node = tree
+            for name in dotted.split("."):
+                node = next((n for n in node.body if isinstance(n, (ast.FunctionDef, ast.ClassDef)) and n.name == name), None)
+                if node is None:
+                    raise TieBroken(f"{dotted} not found")
+            return node
+
+        trees = {}
+        for (rel, dotted, target), want in self.FORMULAS.items():
+            tree = trees.setdefault(rel, parse(rel))
+            fn = func(tree, dotted)
+            got = []
+            for node in ast.walk(fn):
+                if target == "return" and isinstance(node, ast.Return) and node.value is not None:
+                    got.append(ast.unparse(node.value))
+                elif isinstance(node, ast.Assign) and any(ast.unparse(t) == target for t in node.targets):
+                    got.append(ast.unparse(node.value))
+            if want not in got:
+                raise TieBroken(f"{rel}: {dotted}: `{target}` is {got!r}, the model encodes {want!r}")
+        # tables
+        lg = trees.setdefault("nipy/labs/glm/glm.py", parse("nipy/labs/glm/glm.py"))
+        models = None
+        for node in lg.body:
+            if isinstance(node, ast.Assign) and any(isinstance(t, ast.Name) and t.id == "models" for t in node.targets):
+                try:
+                    models = ast.literal_eval(node.value)
+                except Exception as e:
+                    raise TieBroken(f"labs glm `models` is not a literal: {e}")
+        if not isinstance(models, dict) or not all(isinstance(k, str) and isinstance(v, list) and
+                                                   all(isinstance(x, str) for x in v) for k, v in models.items()):
+            raise TieBroken(f"labs glm `models` table not found or of unexpected form: {models!r}")
+        fg = parse("nipy/modalities/fmri/glm.py")
+        fit = func(fg, "GeneralLinearModel.fit")
+        fm = None
+        for node in ast.walk(fit):
+            if isinstance(node, ast.Compare) and isinstance(node.left, ast.Name) and node.left.id == "model" and \
+                    len(node.ops) == 1 and isinstance(node.ops[0], ast.NotIn):
+                try:
+                    fm = list(ast.literal_eval(node.comparators[0]))
+                except Exception:
+                    pass
+        if not fm or not all(isinstance(x, str) for x in fm):
+            raise TieBroken("GeneralLinearModel.fit: `model not in [...]` test not found")
+        md = trees.setdefault("nipy/algorithms/statistics/models/model.py", parse("nipy/algorithms/statistics/models/model.py"))
+        tc = func(md, "LikelihoodModelResults.Tcontrast")
+        store = None
+        for node in ast.walk(tc):
+            if isinstance(node, ast.Call) and isinstance(node.func, ast.Attribute) and node.func.attr == "issubset":
+                try:
+                    store = list(ast.literal_eval(node.args[0]))
+                except Exception:
+                    pass
+        if not store or not all(isinstance(x, str) for x in store):
+            raise TieBroken("Tcontrast: `store.issubset((...))` test not found")
+        try:
+            h = open(os.path.join(REPO, "lib/fff/fff_glm_kalman.h")).read()
+        except Exception as e:
+            raise TieBroken(f"lib/fff/fff_glm_kalman.h unreadable: {e}")
+        mm = re.search(r"#define\s+FFF_GLM_KALMAN_INIT_VAR\s+([0-9.eE+-]+)", h)
+        if not mm:
+            raise TieBroken("FFF_GLM_KALMAN_INIT_VAR not found")
+        from fractions import Fraction
+        iv = Fraction(mm.group(1))
+
+        def sl(xs):
+            return "[" + ", ".join('"' + x.replace('"', "") + '"' for x in xs) + "]"
+
+        rat = str(iv.numerator) if iv.denominator == 1 else f"({iv.numerator} : Rat) / {iv.denominator}"
+        content = ("/- generated by harness/props/C05.py::translators from /repo — do not edit -/\n"
+                   "namespace NipyVerif.C05.Gen\n"
+                   "def labsModels : List (String × List String) := ["
+                   + ", ".join(f'("{k}", {sl(v)})' for k, v in models.items()) + "]\n"
+                   f"def fmriModels : List String := {sl(fm)}\n"
+                   f"def tconStore : List String := {sl(store)}\n"
+                   f"def kfInitVar : Rat := {rat}\n"
+                   "end NipyVerif.C05.Gen\n")
+        return [("NipyVerif/Gen/C05Tables.lean", content)]
 
     # ------------------------------------------------------------------
     def generate(self, rng, tier):
@@ -410,7 +614,7 @@ class C05(PropertyCheck):
             n, p, v = rng.randint(3, 7), rng.randint(1, 3), rng.randint(1, 3)
             p = min(p, n - 1)
             X = _design(rng, n, p, "int")
-            bad = rng.choice(["rows", "model", "method", "rankdef", "weights", "tcon", "rows-labs"])
+            bad = rng.choice(["rows", "model", "method", "rankdef", "weights", "tcon", "rows-labs", "abstract"])
             if bad == "rankdef":
                 p = max(p, 2)
                 X = _design(rng, n, p, "int")
@@ -418,6 +622,75 @@ class C05(PropertyCheck):
                     row[-1] = 2 * row[0]
             cases.append({"kind": "refuse", "X": X, "Y": _data(rng, n + (1 if bad.startswith("rows") else 0), v, "int"),
                           "bad": bad})
+        # -- results API on one object: histories of operations, one or several responses --------
+        nr, nx = (900, 160) if tier == "quick" else (24000, 4000)
+        for _ in range(nr):
+            n, p, _v = _sizes(rng, tier)
+            if n > 24:
+                n = rng.randint(5, 24); p = min(p, n - 1)
+            p = min(p, 5)
+            r = rng.random()
+            # several responses; on purpose often as many responses as parameters / selected columns
+            v = p if r < 0.3 else rng.choice([1, 1, 2, 3, 4, 5, 7])
+            oneD = rng.random() < 0.15
+            if oneD:
+                v = 1
+            wk = rng.choice(["ols", "ols", "ols", "wls", "ar", "gls"])
+            dk = rng.choice(["int", "intercept", "intercept", "dyadic", "drift"])
+            if dk == "drift":
+                p = min(p, 4)
+            X = _design(rng, n, p, dk)
+            Y = _data(rng, n, v, rng.choice(["int", "dyadic", "smooth"]))
+            if wk == "ols":
+                w = {"kind": "ols"}
+            elif wk == "wls":
+                w = {"kind": "wls", "c": [rng.choice([0.5, 1.0, 1.5, 2.0]) for _ in range(n)]}
+            elif wk == "ar":
+                order = rng.choice([1, 2, 3])
+                w = {"kind": "ar", "rho": _pacf_to_ar([rng.randint(-12, 12) / 16.0 for _ in range(order)])}
+            else:
+                a = rng.choice([0.25, 0.5, -0.5])
+                S = np.array([[a ** abs(i - j) for j in range(n)] for i in range(n)])
+                w = {"kind": "gls", "sigma": S.tolist(), "diag": False}
+            cases.append({"kind": "results", "X": X, "Y": Y, "w": w, "oneD": oneD,
+                          "ops": RS.gen_ops(rng, p, v, oneD, rng.choice([1, 2, 3, 4, 6])),
+                          "sel": [rng.randrange(v) for _ in range(rng.randint(1, v + 1))],
+                          "layout": rng.choice(["C", "C", "F"])})
+        for _ in range(nx):
+            if rng.random() < 0.35:
+                k = rng.randint(0, 9)
+                xs = [rng.choice([0.0, 0.0, 1.0, -1.0, 2.0, -0.5, 0.25, 3.0, -4.0, 1e-300, -1e-300, 1e300,
+                                  rng.randint(-64, 64) / 8.0]) for _ in range(k)]
+                shp = None
+                if k in (4, 6, 8) and rng.random() < 0.5:
+                    shp = [2, k // 2]
+                integer = rng.random() < 0.2
+                if integer:
+                    xs = [float(int(max(-1e6, min(1e6, x)))) for x in xs]
+                cases.append({"kind": "matrices", "what": "recip", "xs": xs, "shape": shp, "int": integer})
+            else:
+                n = rng.randint(1, 7); p = rng.randint(1, 6)
+                r = rng.randint(0, min(n, p))
+                if rng.random() < 0.4:
+                    X = np.array([[rng.randint(-3, 3) for _ in range(p)] for _ in range(n)], float)
+                else:       # exact rank r: product of integer factors
+                    A = np.array([[rng.randint(-2, 2) for _ in range(r)] for _ in range(n)], float).reshape(n, r)
+                    B = np.array([[rng.randint(-2, 2) for _ in range(p)] for _ in range(r)], float).reshape(r, p)
+                    X = A @ B
+                    if rng.random() < 0.3:
+                        X = X / rng.choice([2.0, 8.0, 0.5])
+                cases.append({"kind": "matrices", "what": "rank", "X": X.tolist(),
+                              "Y": _data(rng, n, rng.randint(1, 3), "int")})
+        # -- AR(p) machinery, labs engines along every axis, fMRI GLM classes ----------------------
+        import sys
+        H = sys.modules[__name__]
+        na, nl, nf = (500, 250, 300) if tier == "quick" else (12000, 6000, 6000)
+        for _ in range(na):
+            cases.append(MR.gen_ar(rng, H, tier))
+        for _ in range(nl):
+            cases.append(MR.gen_labs3(rng, H, tier))
+        for _ in range(nf):
+            cases.append(MR.gen_fmri(rng, H, tier))
         return cases
 
     # ------------------------------------------------------------------
@@ -652,6 +925,26 @@ class C05(PropertyCheck):
             bs * np.abs(c).sum())
         chk("labs glm contrast variance differs from Tcontrast sd^2", np.atleast_1d(np.squeeze(Lc.variance)), var,
             rt_o, tvs)
+        # labs contrast accessors and the save / load round trip of a fitted glm
+        if fail is None:
+            import os, shutil, tempfile
+            st = np.atleast_1d(np.squeeze(Lc.stat())); sm = Lc.summary()
+            ok = var > 1e-9 * tvs
+            tt = np.atleast_1d(np.asarray(tcon.t, float))
+            if not _near(st[ok], tt[ok], 1e3 * rt_o, 1e-6) or sm["dof"] != L.dof or sm["effect"] is not Lc.effect:
+                fail = f"labs contrast stat()/summary() differ from Tcontrast t: {st.tolist()} vs {tt.tolist()}"
+            d = tempfile.mkdtemp()
+            try:
+                fn = os.path.join(d, "g" if n % 2 else "g.npz")
+                L.save(fn)
+                L2 = lg.load(fn)
+                c2 = L2.contrast(c)
+                if not (np.array_equal(L2.beta, L.beta) and np.array_equal(np.atleast_1d(L2.s2), np.atleast_1d(L.s2))
+                        and float(L2.dof) == float(L.dof) and np.array_equal(c2.effect, Lc.effect)
+                        and np.array_equal(c2.variance, Lc.variance)):
+                    fail = "labs glm save/load does not reproduce the fit and its contrasts"
+            finally:
+                shutil.rmtree(d, ignore_errors=True)
         # axis option
         chk("labs glm (ols) axis=1 beta is not the transpose of axis=0", np.asarray(Lt.beta).T, L.beta, rt_o, bs)
         chk("labs glm (ols) axis=1 s2 differs from axis=0", np.atleast_1d(Lt.s2), np.atleast_1d(L.s2), rt_o, ys * ys)
@@ -776,6 +1069,28 @@ class C05(PropertyCheck):
         return {"lines": [line], "impl": [impl], "oracle": fail, "tags": tags, "mutated": mut,
                 "nontrivial": True}
 
+    # -- results API / matrices (harness/props/c05_results.py) ---------------------
+    def _results(self, case):
+        import sys
+        return RS.run_results(sys.modules[__name__], case)
+
+    def _matrices(self, case):
+        import sys
+        return RS.run_matrices(sys.modules[__name__], case)
+
+    # -- AR(p), labs axis, fMRI classes (harness/props/c05_more.py) ------------------
+    def _ar(self, case):
+        import sys
+        return MR.run_ar(sys.modules[__name__], case)
+
+    def _labs3(self, case):
+        import sys
+        return MR.run_labs3(sys.modules[__name__], case)
+
+    def _fmri(self, case):
+        import sys
+        return MR.run_fmri(sys.modules[__name__], case)
+
     # -- refusals ---------------------------------------------------------------
     def _refuse(self, case):
         from nipy.algorithms.statistics.models import regression as reg
@@ -810,6 +1125,13 @@ class C05(PropertyCheck):
         elif bad == "tcon":
             line = f"guard tcon {p + 1} {p}"
             got = attempt(lambda: reg.OLSModel(X).fit(Y).Tcontrast(np.ones(p + 1)))
+        elif bad == "abstract":
+            from nipy.algorithms.statistics.models import model as md
+            name = ["initialize", "fit", "predict", "logL", "score", "information"][(n + p + Y.shape[1]) % 6]
+            line = f"guard abstract {name}"
+            obj = md.Model() if name in ("initialize", "fit", "predict") else md.LikelihoodModel()
+            args = {"initialize": (), "fit": (), "predict": (), "logL": (0, Y), "score": (0, Y), "information": (0,)}[name]
+            got = attempt(lambda: getattr(obj, name)(*args))
         else:   # rank deficient design: outside the property's quantifier; the model must refuse it
             line = f"fit {pmat(X)} {pmat(Y)} ols {frs([1.0] * p)} {pmat(np.eye(p)[:1])}"
             m = reg.OLSModel(X)
@@ -822,6 +1144,19 @@ class C05(PropertyCheck):
         kind, obs, meta = impl_obs
         if kind == "text":
             return None if obs == model_out else f"impl={obs!r} model={model_out!r}"
+        if kind == "res":
+            return RS.compare_results(case, obs, meta, model_out)
+        if kind in ("arw", "yw", "arbias", "iterfit", "labs3", "glmcon", "scaling"):
+            return MR.compare_more(kind, case, obs, meta, model_out)
+        if kind == "recip":
+            secs = model_out.split(" | ")
+            if len(secs) != 2:
+                return f"model returned {model_out[:60]!r}"
+            for name, a, sct in (("pos_recipr", obs[0], secs[0]), ("recipr0", obs[1], secs[1])):
+                b = [float(x) for x in parse_rats(sct)]
+                if len(a) != len(b) or any(not (x == y or abs(x - y) <= 1e-15 * abs(y)) for x, y in zip(a, b)):
+                    return f"{name}: impl={a} model={b}"
+            return None
         if model_out.startswith(("error", "bad-op")):
             return f"impl returned values, model says {model_out}"
         secs = model_out.split(" | ")
@@ -916,7 +1251,103 @@ class C05(PropertyCheck):
         return "unknown observation kind"
 
     # ------------------------------------------------------------------
+    def _shrink_results(self, case):
+        X, Y, ops = case["X"], case["Y"], case["ops"]
+        n, p, v = len(X), len(X[0]), len(Y[0])
+
+        def base(**kw):
+            c = dict(case); c.update(kw); return c
+
+        if len(ops) > 1:
+            for op in ops:
+                yield base(ops=[op])
+            for k in range(len(ops)):
+                yield base(ops=ops[:k] + ops[k + 1:])
+        if case["w"]["kind"] != "ols":
+            yield base(w={"kind": "ols"})
+        if case.get("layout") != "C":
+            yield base(layout="C")
+        if v > 1:
+            for j in range(v):
+                ops2 = []
+                for op in ops:
+                    op = dict(op)
+                    d = op.get("disp")
+                    if d and d["k"] == "a1":
+                        op["disp"] = {"k": "a1", "d": d["d"][:j] + d["d"][j + 1:]}
+                    ops2.append(op)
+                yield base(Y=[r[:j] + r[j + 1:] for r in Y], ops=ops2, sel=[0])
+        if len(case.get("sel") or []) > 1:
+            yield base(sel=case["sel"][:1])
+        if n > p + 1 and case["w"]["kind"] in ("ols", "ar"):
+            for i in (n - 1, 0):
+                X2 = X[:i] + X[i + 1:]
+                if _rank(X2) == p:
+                    yield base(X=X2, Y=Y[:i] + Y[i + 1:])
+        if p > 1:
+            X2 = [r[:-1] for r in X]
+            ops2 = [RS_drop_last(op, p) for op in ops]
+            if _rank(X2) == p - 1 and all(o is not None for o in ops2):
+                yield base(X=X2, ops=ops2)
+        if any(abs(y) > 2 for r in Y for y in r):
+            yield base(Y=[[float(int(y / 2)) for y in r] for r in Y])
+        if any(x != round(x) for r in X for x in r):
+            X2 = [[float(round(x)) for x in r] for r in X]
+            if _rank(X2) == p:
+                yield base(X=X2)
+
     def shrink(self, case):
+        if case["kind"] == "results":
+            yield from self._shrink_results(case)
+            return
+        if case["kind"] == "matrices":
+            if case["what"] == "recip":
+                xs = case["xs"]
+                for k in range(len(xs)):
+                    yield dict(case, xs=xs[:k] + xs[k + 1:], shape=None)
+            else:
+                X = case["X"]
+                if len(X) > 1:
+                    for i in range(len(X)):
+                        yield dict(case, X=X[:i] + X[i + 1:], Y=case["Y"][:i] + case["Y"][i + 1:])
+                if len(X[0]) > 1:
+                    for j in range(len(X[0])):
+                        yield dict(case, X=[r[:j] + r[j + 1:] for r in X])
+            return
+        if case["kind"] == "labs3":
+            Y3 = np.array(case["Y3"], float)
+            for ax in range(3):
+                if ax != case["axis"] and Y3.shape[ax] > 1:
+                    yield dict(case, Y3=np.take(Y3, range(Y3.shape[ax] - 1), axis=ax).tolist())
+                    yield dict(case, Y3=np.take(Y3, range(1, Y3.shape[ax]), axis=ax).tolist())
+            if case.get("layout") != "C":
+                yield dict(case, layout="C")
+            return
+        if case["kind"] == "ar":
+            X, Y = case["X"], case["Y"]
+            n, p, v = len(X), len(X[0]), len(Y[0])
+            o = case["order"]
+            if v > 1:
+                for j in range(v):
+                    yield dict(case, Y=[r[:j] + r[j + 1:] for r in Y], sel=[0])
+            if n > p + o + 3:
+                for i in (n - 1, 0):
+                    X2 = X[:i] + X[i + 1:]
+                    if _rank(X2) == p:
+                        yield dict(case, X=X2, Y=Y[:i] + Y[i + 1:], df=None)
+            if p > 1:
+                X2 = [r[:-1] for r in X]
+                if _rank(X2) == p - 1:
+                    yield dict(case, X=X2)
+            if o > 1 and case["what"] != "whiten":
+                yield dict(case, order=o - 1)
+            if case["what"] == "whiten" and o > 1:
+                yield dict(case, order=o - 1, rho=case["rho"][:-1], rho_as="list")
+            if case["what"] == "iter" and case["niter"] > 1:
+                yield dict(case, niter=case["niter"] - 1)
+            if any(abs(y) > 2 for r in Y for y in r):
+                yield dict(case, Y=[[float(int(y / 2)) for y in r] for r in Y])
+            return
         X, Y = case.get("X"), case.get("Y")
         if not X or not Y or case["kind"] == "refuse":
             return
@@ -934,6 +1365,8 @@ class C05(PropertyCheck):
                     kw["sel"] = [0]
                 if "perm" in case:
                     kw["perm"] = list(range(v - 1))
+                if "pos" in case:
+                    kw["pos"] = case["pos"][:v - 1]
                 if case.get("nd3"):
                     kw["nd3"] = False
                 yield base(**kw)
@@ -945,7 +1378,7 @@ class C05(PropertyCheck):
                 if _rank(X2) == p and (case["kind"] != "glmar1" or n - 1 >= p + 2):
                     yield base(X=X2, Y=Y[:i] + Y[i + 1:])
         # fewer regressors
-        if p > 1:
+        if p > 1 and "c" in case and case["kind"] != "fmri":
             for j in range(p):
                 X2 = [r[:j] + r[j + 1:] for r in X]
                 if _rank(X2) == p - 1:
